@@ -345,3 +345,169 @@ BOUNDED.update(
         "stream-sender-model": dict(functions=[], extra=["sender_model"], bound="see result", quick=2000, thorough=60000),
     }
 )
+
+
+# ---------------------------------------------------------------- more replay generators
+def gen_size_uint_var(rng, model, limit):
+    vals = set(_ints(model, "value"))
+    for k in (0, 6, 14, 15, 30, 31, 62, 63):
+        for d in (-2, -1, 0, 1, 2):
+            vals.add(max(0, (1 << k) + d))
+    for v in sorted(vals):
+        yield None, (v,), {}
+    while True:
+        yield None, (rng.randrange(1 << rng.choice((7, 15, 31, 63, 64))),), {}
+
+
+_BYTES = [0x00, 0x09, 0x0A, 0x0D, 0x1F, 0x20, 0x21, 0x3A, 0x40, 0x41, 0x5A, 0x5B, 0x61, 0x7A, 0x7E, 0x7F, 0x80, 0xFF]
+
+
+def gen_header_name(rng, model, limit):
+    yield None, (b"",), {}
+    for a in _BYTES:
+        yield None, (bytes([a]),), {}
+    for a in _BYTES:
+        for b in _BYTES:
+            yield None, (bytes([a, b]),), {}
+    while True:
+        yield None, (bytes(rng.choice(_BYTES + [0x61] * 10) for _ in range(rng.randrange(0, 6))),), {}
+
+
+def gen_header_value(rng, model, limit):
+    for _s, a, _kw in gen_header_name(rng, model, limit):
+        yield None, (b"x-k", a[0]), {}
+
+
+def _receivers(rng):
+    from aioquic.quic.packet import QuicStreamFrame
+    from aioquic.quic.stream import FinalSizeError, QuicStreamReceiver
+
+    while True:
+        rx = QuicStreamReceiver(stream_id=0, readable=True)
+        for _ in range(rng.randrange(0, 5)):
+            off = rng.randrange(0, 10)
+            try:
+                rx.handle_frame(QuicStreamFrame(offset=off, data=bytes(rng.randrange(0, 5)), fin=rng.random() < 0.3))
+            except FinalSizeError:
+                pass
+        yield rx
+
+
+def gen_rx_reset(rng, model, limit):
+    for rx in _receivers(rng):
+        yield rx, (), {"final_size": rng.randrange(0, 16)}
+
+
+def gen_rx_frame(rng, model, limit):
+    from aioquic.quic.packet import QuicStreamFrame
+
+    for rx in _receivers(rng):
+        yield rx, (QuicStreamFrame(offset=rng.randrange(0, 12), data=bytes(rng.randrange(0, 5)), fin=rng.random() < 0.4),), {}
+
+
+def _senders(rng):
+    from aioquic.quic.packet_builder import QuicDeliveryState
+    from aioquic.quic.stream import QuicStreamSender
+
+    while True:
+        tx = QuicStreamSender(stream_id=0, writable=True)
+        out = []
+        for _ in range(rng.randrange(0, 7)):
+            r = rng.random()
+            if r < 0.45 and tx._buffer_fin is None:
+                tx.write(bytes(rng.randrange(0, 7)), end_stream=rng.random() < 0.15)
+            elif r < 0.8:
+                f = tx.get_frame(rng.randrange(0, 6), rng.choice((None, rng.randrange(0, 20))))
+                if f is not None:
+                    out.append(f)
+            elif out:
+                f = out.pop()
+                tx.on_data_delivery(rng.choice((QuicDeliveryState.ACKED, QuicDeliveryState.LOST)), f.offset, f.offset + len(f.data), f.fin)
+        yield tx
+
+
+def gen_tx_get_frame(rng, model, limit):
+    for tx in _senders(rng):
+        yield tx, (rng.randrange(0, 8), rng.choice((None, rng.randrange(0, 24)))), {}
+
+
+def gen_tx_write(rng, model, limit):
+    for tx in _senders(rng):
+        yield tx, (bytes(rng.randrange(0, 6)),), {"end_stream": rng.random() < 0.3}
+
+
+def _renos(rng, model):
+    from aioquic.quic.congestion.reno import RenoCongestionControl
+    from aioquic.quic.packet_builder import QuicSentPacket
+
+    def pkt(t):
+        return QuicSentPacket(epoch=None, in_flight=True, is_ack_eliciting=True, is_crypto_packet=False, packet_number=0, packet_type=None, sent_time=t, sent_bytes=rng.choice((50, 1200, 1280)))
+
+    while True:
+        cc = RenoCongestionControl(max_datagram_size=rng.choice((1, 1200, 1280, 1500)))
+        t = 1.0
+        for _ in range(rng.randrange(0, 8)):
+            t += rng.random()
+            if rng.random() < 0.6:
+                cc.on_packets_lost(now=t, packets=[pkt(t - 0.1)])
+            else:
+                cc.on_packet_acked(now=t, packet=pkt(t - 0.1))
+        yield cc, pkt, t
+
+
+def gen_reno_lost(rng, model, limit):
+    for cc, pkt, t in _renos(rng, model):
+        yield cc, (), {"now": t + 1, "packets": [pkt(t + 0.5) for _ in range(rng.randrange(0, 3))]}
+
+
+def gen_reno_acked(rng, model, limit):
+    for cc, pkt, t in _renos(rng, model):
+        yield cc, (), {"now": t + 1, "packet": pkt(t + 0.5)}
+
+
+def gen_cubic_lost(rng, model, limit):
+    from aioquic.quic.congestion.cubic import CubicCongestionControl
+    from aioquic.quic.packet_builder import QuicSentPacket
+
+    def pkt(t):
+        return QuicSentPacket(epoch=None, in_flight=True, is_ack_eliciting=True, is_crypto_packet=False, packet_number=0, packet_type=None, sent_time=t, sent_bytes=rng.choice((50, 1200, 1280)))
+
+    while True:
+        cc = CubicCongestionControl(max_datagram_size=rng.choice((1200, 1280, 1500)))
+        t = 1.0
+        for _ in range(rng.randrange(0, 6)):
+            t += rng.random()
+            p = pkt(t - 0.1)
+            cc.on_packet_sent(packet=p)
+            if rng.random() < 0.5:
+                cc.on_packets_lost(now=t, packets=[p])
+            else:
+                cc.on_packet_acked(now=t, packet=p)
+        yield cc, (), {"now": t + 1, "packets": [pkt(t + 0.5) for _ in range(rng.randrange(0, 3))]}
+
+
+GENS.update(
+    {
+        "quic/congestion/cubic.py::CubicCongestionControl.on_packets_lost": gen_cubic_lost,
+        "buffer.py::size_uint_var": gen_size_uint_var,
+        "h3/connection.py::validate_header_name": gen_header_name,
+        "h3/connection.py::validate_header_value": gen_header_value,
+        "quic/stream.py::QuicStreamReceiver.handle_reset": gen_rx_reset,
+        "quic/stream.py::QuicStreamReceiver.handle_frame": gen_rx_frame,
+        "quic/stream.py::QuicStreamSender.get_frame": gen_tx_get_frame,
+        "quic/stream.py::QuicStreamSender.write": gen_tx_write,
+        "quic/congestion/reno.py::RenoCongestionControl.on_packets_lost": gen_reno_lost,
+        "quic/congestion/reno.py::RenoCongestionControl.on_packet_acked": gen_reno_acked,
+    }
+)
+
+
+_XC = "cross-check of the proved contracts against CPython: the same clause strings are evaluated natively around the REAL function on generated reachable states; quick %d / thorough %d cases per function"
+for _name, _fns, _q, _t in (
+    ("native-xcheck-stream", ["quic/stream.py::QuicStreamReceiver.handle_reset", "quic/stream.py::QuicStreamReceiver.handle_frame", "quic/stream.py::QuicStreamSender.get_frame", "quic/stream.py::QuicStreamSender.write"], 3000, 60000),
+    ("native-xcheck-reno", ["quic/congestion/reno.py::RenoCongestionControl.on_packets_lost", "quic/congestion/reno.py::RenoCongestionControl.on_packet_acked", "quic/congestion/cubic.py::CubicCongestionControl.on_packets_lost"], 5000, 100000),
+    ("native-xcheck-h3", ["h3/connection.py::validate_header_name", "h3/connection.py::validate_header_value"], 3000, 100000),
+    ("native-xcheck-varint", ["buffer.py::size_uint_var"], 3000, 100000),
+    ("native-xcheck-pn", ["quic/packet.py::decode_packet_number"], 5000, 300000),
+):
+    BOUNDED[_name] = dict(functions=_fns, bound=_XC % (_q, _t), quick=_q, thorough=_t)
